@@ -112,8 +112,8 @@ func C13(tier common.Tier) int {
 								blocks := []e1.UseBlock{{Encl: encl, File: file, Stmts: st}, {Encl: e1.UEStructField, File: 1}}
 								base := &e1.UseSpec{Pkg: pk, Mix: mix, Sites: useSites, Blocks: blocks}
 								bb, brest, bcrash, _ := e1.UseObserve(fam, base)
-								for _, sp := range []e1.Spell{e1.SpLocalAlias, e1.SpThirdAlias, e1.SpRenamedImp, e1.SpDotImport, e1.SpBodyAlias} {
-									if pk.Path == e1.PathD && sp != e1.SpLocalAlias {
+								for _, sp := range []e1.Spell{e1.SpLocalAlias, e1.SpThirdAlias, e1.SpRenamedImp, e1.SpDotImport, e1.SpBodyAlias, e1.SpMixedAlias} {
+									if pk.Path == e1.PathD && sp != e1.SpLocalAlias && sp != e1.SpMixedAlias {
 										continue
 									}
 									v := *base
@@ -194,7 +194,8 @@ func compareUseSpell(run *common.Run, fam string, v *e1.UseSpec, bb, vb map[stri
 	sort.Strings(keys)
 	for _, k := range keys {
 		b, w := strip(bb[k]), strip(vb[k])
-		if v.Spell != e1.SpBodyAlias && (v.Spell != e1.SpLocalAlias || fileOf(k) != 0) {
+		// an alias declaration is a reference for C04 but none of the uses C03 lists: only PKGO01 can move onto it
+		if fam == "TONL" || (v.Spell != e1.SpBodyAlias && ((v.Spell != e1.SpLocalAlias && v.Spell != e1.SpMixedAlias) || fileOf(k) != 0)) {
 			b, w = bb[k], vb[k]
 		}
 		if bb[k] != "" {
